@@ -1,1 +1,285 @@
-fn main() {}
+//! C17 — one deterministic input stream executed under one feature set of `purl`; prints a
+//! hash per block of transcript lines (or the lines of one block with `--dump-block K`).
+//! The orchestrator builds this binary four times (no features / package-type / default /
+//! default+serde) and compares the transcripts offline.
+//!
+//! `transcript --tier quick|thorough --seed N [--dump-block K]`
+
+use std::fmt::{Debug, Display};
+use std::panic::{self, AssertUnwindSafe};
+use std::str::FromStr;
+
+use purl::{GenericPurl, GenericPurlBuilder, PurlShape};
+use purl_verif::hist::{self, Call, CsVal, Hist};
+use purl_verif::rng::{fnv, mix, Rng};
+use purl_verif::{gen, spell};
+
+const BLOCK: u64 = 4096;
+
+struct Sink {
+    distinct: std::collections::HashSet<u64>,
+    samples: Vec<String>,
+    dump: Option<u64>,
+    line_no: u64,
+    block_hash: u64,
+    hashes: Vec<u64>,
+    err_lines: u64,
+    ok_lines: u64,
+}
+
+impl Sink {
+    fn line(&mut self, api: &str, input_idx: u64, text: String) {
+        let l = format!("{input_idx}\t{api}\t{text}");
+        if text.starts_with("Err") {
+            self.err_lines += 1;
+        } else {
+            self.ok_lines += 1;
+        }
+        let block = self.line_no / BLOCK;
+        if self.dump == Some(block) {
+            println!("LINE {}\t{}", self.line_no, l.escape_debug());
+        }
+        self.distinct.insert(fnv(format!("{api}\t{text}").as_bytes()));
+        if self.samples.len() < 3 && self.line_no % 50_021 == 7 {
+            self.samples.push(l.clone());
+        }
+        self.block_hash = mix(self.block_hash, fnv(l.as_bytes()));
+        self.line_no += 1;
+        if self.line_no % BLOCK == 0 {
+            self.hashes.push(self.block_hash);
+            self.block_hash = 0;
+        }
+    }
+}
+
+fn render<T: PurlShape>(p: &GenericPurl<T>) -> String {
+    let quals: Vec<String> = p.qualifiers().iter().map(|(k, v)| format!("{}={}", k.as_str(), v)).collect();
+    format!(
+        "Ok({}|{:?}|{}|{:?}|{}|{:?}|{})",
+        p.package_type().package_type(),
+        p.namespace(),
+        p.name(),
+        p.version(),
+        quals.join("&"),
+        p.subpath(),
+        p
+    )
+}
+
+fn outcome<T, E: Debug + Display>(r: Result<GenericPurl<T>, E>) -> String
+where
+    T: PurlShape,
+{
+    match r {
+        Ok(p) => render(&p),
+        Err(e) => format!("Err({e:?}; {e})"),
+    }
+}
+
+fn guarded(f: impl FnOnce() -> String) -> String {
+    match panic::catch_unwind(AssertUnwindSafe(f)) {
+        Ok(s) => s,
+        Err(_) => "PANIC".to_string(),
+    }
+}
+
+fn parse_line<T>(s: &str) -> String
+where
+    T: FromStr + PurlShape,
+    <T as PurlShape>::Error: From<<T as FromStr>::Err> + Debug + Display,
+{
+    guarded(|| outcome(GenericPurl::<T>::from_str(s)))
+}
+
+fn build_line<T>(h: &Hist, mk: &dyn Fn(&str) -> Option<T>) -> String
+where
+    T: PurlShape + Clone,
+    T::Error: Debug + Display,
+{
+    guarded(|| {
+        let Some(t) = mk(&h.ty) else { return "skipped".into() };
+        let mut b = GenericPurlBuilder::new(t, h.name.as_str());
+        let mut setter_results = String::new();
+        for c in &h.calls {
+            b = match c {
+                Call::Ns(s) => b.with_namespace(s.as_str()),
+                Call::NoNs => b.without_namespace(),
+                Call::Name(s) => b.with_name(s.as_str()),
+                Call::Ver(s) => b.with_version(s.as_str()),
+                Call::NoVer => b.without_version(),
+                Call::Sub(s) => b.with_subpath(s.as_str()),
+                Call::NoSub => b.without_subpath(),
+                Call::Type(s) | Call::PartsType(s) => match mk(s) {
+                    Some(t) => b.with_package_type(t),
+                    None => b,
+                },
+                Call::Qual(k, v) => {
+                    let keep = b.clone();
+                    match b.with_qualifier(k.as_str(), v.as_str()) {
+                        Ok(nb) => nb,
+                        Err(e) => {
+                            setter_results.push_str(&format!("[{e}]"));
+                            keep
+                        },
+                    }
+                },
+                Call::NoQual(k) => b.without_qualifier(k.as_str()),
+                Call::NoQuals => b.without_qualifiers(),
+                Call::Typed(which, v) => {
+                    use purl::qualifiers::well_known::{DownloadUrl, FileName, RepositoryUrl, VcsUrl};
+                    let v = v.as_deref();
+                    match which % 4 {
+                        0 => b.with_typed_qualifier(v.map(RepositoryUrl::from)),
+                        1 => b.with_typed_qualifier(v.map(DownloadUrl::from)),
+                        2 => b.with_typed_qualifier(v.map(VcsUrl::from)),
+                        _ => b.with_typed_qualifier(v.map(FileName::from)),
+                    }
+                },
+                Call::Checksum(entries) => {
+                    use purl::qualifiers::well_known::Checksum;
+                    let keep = b.clone();
+                    let cs = entries.as_ref().map(|es| {
+                        let mut c = Checksum::default();
+                        for (a, v) in es {
+                            match v {
+                                CsVal::Bytes(x) => c.insert(a, x.clone()),
+                                CsVal::Raw(x) => c.insert_raw(a, x.clone()),
+                            }
+                        }
+                        c
+                    });
+                    match b.try_with_typed_qualifier(cs) {
+                        Ok(nb) => nb,
+                        Err(e) => {
+                            setter_results.push_str(&format!("[{e}]"));
+                            keep
+                        },
+                    }
+                },
+                Call::PartsNs(s) => {
+                    b.parts.namespace = s.as_str().into();
+                    b
+                },
+                Call::PartsName(s) => {
+                    b.parts.name = s.as_str().into();
+                    b
+                },
+                Call::PartsVer(s) => {
+                    b.parts.version = s.as_str().into();
+                    b
+                },
+                Call::PartsSub(s) => {
+                    b.parts.subpath = s.as_str().into();
+                    b
+                },
+                Call::PartsQual(k, v) => {
+                    let _ = b.parts.qualifiers.insert(k.as_str(), v.as_str());
+                    b
+                },
+            };
+        }
+        format!("{setter_results}{}", outcome(b.build()))
+    })
+}
+
+fn mk_string(s: &str) -> Option<String> {
+    Some(s.to_string())
+}
+
+#[cfg(feature = "pt")]
+fn mk_typed(s: &str) -> Option<purl::PackageType> {
+    purl::PackageType::from_str(s).ok()
+}
+
+fn arg_after(args: &[String], flag: &str) -> Option<String> {
+    args.iter().position(|a| a == flag).and_then(|i| args.get(i + 1).cloned())
+}
+
+fn main() {
+    panic::set_hook(Box::new(|_| {}));
+    let args: Vec<String> = std::env::args().skip(1).collect();
+    let quick = arg_after(&args, "--tier").as_deref() != Some("thorough");
+    let seed: u64 = arg_after(&args, "--seed").and_then(|s| s.parse().ok()).unwrap_or(1);
+    let dump: Option<u64> = arg_after(&args, "--dump-block").and_then(|s| s.parse().ok());
+    let dump_class = arg_after(&args, "--dump-class").unwrap_or_else(|| "G".into());
+    // generic (type-agnostic API) and typed lines are hashed separately: the former exist in
+    // every configuration, the latter only where the package-type feature is on
+    let mut sink = Sink { distinct: Default::default(), samples: vec![], dump: if dump_class == "G" { dump } else { None }, line_no: 0, block_hash: 0, hashes: vec![], err_lines: 0, ok_lines: 0 };
+    #[allow(unused_mut, unused_variables)]
+    let mut tsink = Sink { distinct: Default::default(), samples: vec![], dump: if dump_class == "T" { dump } else { None }, line_no: 0, block_hash: 0, hashes: vec![], err_lines: 0, ok_lines: 0 };
+    let mut inputs = 0u64;
+
+    // (a) the bounded token language
+    {
+        let mut f = |i: u64, s: &str| {
+            inputs += 1;
+            sink.line("generic-parse", i, parse_line::<String>(s));
+            #[cfg(feature = "pt")]
+            tsink.line("typed-parse", i, parse_line::<purl::PackageType>(s));
+        };
+        gen::for_each_g1_reduced(quick, 0, 1, &mut f);
+    }
+    // (b) seeded legal spellings and single-fault variants
+    let mut r = Rng::stream(seed, 0, "c17.g2");
+    let n = if quick { 100_000 } else { 4_000_000 };
+    for i in 0..n {
+        let known = r.coin();
+        let t = spell::gen_tuple(&mut r, known);
+        let mask = spell::random_mask(&mut r);
+        let sp = spell::spell(&mut r, &t, mask);
+        let s = sp.assemble();
+        inputs += 1;
+        sink.line("generic-parse", 10_000_000_000 + i, parse_line::<String>(&s));
+        #[cfg(feature = "pt")]
+        tsink.line("typed-parse", 10_000_000_000 + i, parse_line::<purl::PackageType>(&s));
+        let kind = *r.pick(spell::FAULT_KINDS);
+        if let Some(bad) = spell::inject(&mut r, &t, &sp, kind) {
+            inputs += 1;
+            sink.line("generic-parse", 20_000_000_000 + i, parse_line::<String>(&bad));
+            #[cfg(feature = "pt")]
+            tsink.line("typed-parse", 20_000_000_000 + i, parse_line::<purl::PackageType>(&bad));
+        }
+    }
+    // (c) mutated corpus
+    let (corpus, _) = gen::load_corpus();
+    let mut r = Rng::stream(seed, 0, "c17.g10");
+    for i in 0..(if quick { 60_000 } else { 2_000_000 }) {
+        let s = gen::mutate(&mut r, &corpus);
+        inputs += 1;
+        sink.line("generic-parse", 30_000_000_000 + i, parse_line::<String>(&s));
+        #[cfg(feature = "pt")]
+        tsink.line("typed-parse", 30_000_000_000 + i, parse_line::<purl::PackageType>(&s));
+    }
+    // (d) builder histories
+    let mut r = Rng::stream(seed, 0, "c17.g4");
+    for i in 0..(if quick { 80_000 } else { 3_000_000 }) {
+        let h = hist::rand_hist(&mut r, false);
+        inputs += 1;
+        sink.line("generic-build", 40_000_000_000 + i, build_line::<String>(&h, &mk_string));
+        let ht = hist::rand_hist(&mut r, true);
+        #[cfg(feature = "pt")]
+        {
+            inputs += 1;
+            tsink.line("typed-build", 50_000_000_000 + i, build_line::<purl::PackageType>(&ht, &mk_typed));
+        }
+        let _ = &ht;
+    }
+    for (class, sk) in [("G", &mut sink), ("T", &mut tsink)] {
+        if sk.line_no % BLOCK != 0 {
+            let h = sk.block_hash;
+            sk.hashes.push(h);
+        }
+        if dump.is_none() {
+            println!("LINES {class} {} ok={} err={} distinct={}", sk.line_no, sk.ok_lines, sk.err_lines, sk.distinct.len());
+            for smp in &sk.samples {
+                println!("SAMPLE {class} {}", smp.escape_debug());
+            }
+            for (i, h) in sk.hashes.iter().enumerate() {
+                println!("BLOCK {class} {i} {h:016x}");
+            }
+        }
+    }
+    if dump.is_none() {
+        println!("INPUTS {inputs}");
+    }
+}
